@@ -28,7 +28,7 @@ ASSUMPTIONS = [
 ]
 NOT_REACHED = ["azimuths printed in scientific notation", "results with a single accepted window (std curve undefined)"]
 BUDGET = {"quick": dict(cases=500, seconds=60, shards=4),
-          "thorough": dict(cases=12000, seconds=600, shards=16)}
+          "thorough": dict(cases=30000, seconds=600, shards=16)}
 REQUIRED = ["mon:curves-bit-identical", "mon:masks-identical", "mon:search-range-and-peaks-identical",
             "mon:statistics-identical", "mon:file-derived-columns-are-the-objects", "mon:write-leaves-object-unchanged",
             "mon:file-curve-columns-are-the-objects"]
